@@ -335,7 +335,43 @@ def D15():
     return True
 
 
-ALL = [D1, D2, D3, D4, D5, D6, D7, D7b, D8, D9, D10, D11, D12, D13, D14, D15]
+def D16():
+    """a graph with instances of classes pickled BY VALUE (defined in the main script) whose methods use
+    zero-argument super(): nrpickler.dumps must return (it looped for ever), and the copy must work"""
+    code = (
+        "import sys, signal, pickle; sys.path.insert(0, %r)\n"
+        "from edgegraph.structure import Vertex, Universe, DirectedEdge\n"
+        "from edgegraph.output import nrpickler\n"
+        "from edgegraph.traversal import helpers\n"
+        "class MyV(Vertex):\n"
+        "    def __init__(self, name):\n"
+        "        super().__init__(attributes={'name': name})\n"
+        "    def hello(self):\n"
+        "        return 'hello ' + super().__repr__()[:1]\n"
+        "class Sub(MyV):\n"
+        "    def __init__(self, name):\n"
+        "        super().__init__(name + '!')\n"
+        "def mk():\n"
+        "    def fact(n):\n"
+        "        return 1 if n < 2 else n * fact(n - 1)\n"
+        "    return fact\n"
+        "signal.signal(signal.SIGALRM, lambda *a: sys.exit(3))\n"
+        "a, b = MyV('a'), Sub('b')\n"
+        "DirectedEdge(a, b)\n"
+        "a.f = mk()\n"
+        "u = Universe(vertices=[a, b])\n"
+        "signal.alarm(25)\n"
+        "for proto in range(6):\n"
+        "    u2 = pickle.loads(nrpickler.dumps(u, protocol=proto))\n"
+        "    x, y = u2.vertices\n"
+        "    assert (x.name, y.name, x.hello(), x.f(5)) == ('a', 'b!', 'hello <', 120)\n"
+        "    assert helpers.neighbors(x) == [y] and type(y).__mro__[1] is type(x)\n"
+    ) % os.environ.get("EG_REPO", "/repo")
+    p = subprocess.run([sys.executable, "-c", code], capture_output=True)
+    return p.returncode == 0
+
+
+ALL = [D1, D2, D3, D4, D5, D6, D7, D7b, D8, D9, D10, D11, D12, D13, D14, D15, D16]
 
 if __name__ == "__main__":
     bad = 0
